@@ -565,15 +565,16 @@ func init() {
 						cf := capF
 						uni := pl.Universe
 						if big {
-							cf = 40
+							cf = 16
 							uni = nil
 						}
 						icfg := v1x.Config{Cache: 0, Fast: c.Rng.Intn(2) == 0, Backend: "mem", Flush: e.Cfg.Flush}
 						ihist := fmt.Sprintf("import of version %d (%d nodes)", v, len(stream))
 						if big {
+							icfg.Flush = 0 // the importer's own 10000-node batches are the subject here, not the flusher's
 							// a >10000-node import writes its nodes in background batches: every batch Write
 							// (there are only a few) fails once, plus an even sample of all other calls
-							probeOpMask(c, seam.NewMemStore(), icfg, f, uni, ihist+" [batch writes only]", 0, 100, seam.KBWrite)
+							probeOpMask(c, seam.NewMemStore(), icfg, f, uni, ihist+" [batch writes only]", 0, 24, seam.KBWrite)
 						}
 						probeOp(c, seam.NewMemStore(), icfg, f, uni, ihist, 0, cf)
 						writeProbed++
